@@ -101,12 +101,14 @@ def gen_case(rng, estimation=False):
                 if isinstance(kd, dict):
                     pg(kd)
         pg(spec["tree"])
+    spec["_tz"] = rng.choice(["America/New_York", "Asia/Tokyo"]) if rng.random() < 0.15 else None
     k = rng.randint(2, 3)
     variants = []
     for i in range(k):
         v = {"capital": float(rng.choice([spec["capital"], spec["capital"] * 2, 50000.0])), "same_data": rng.random() < 0.5,
              "permute": rng.random() < 0.5,
              "integer": rng.random() < 0.5, "comm": rng.choice([[0, 0, 0], [3, 0, 0.001], [1, 2.0, 0]])}
+        v["tz"] = spec.get("_tz")
         if estimation and i > 0:
             v["same_data"], v["permute"] = False, True
         variants.append(v)
@@ -118,6 +120,7 @@ def gen_case(rng, estimation=False):
 def variant_spec(spec, v, i):
     s = copy.deepcopy(spec)
     s["capital"] = v["capital"]
+    s["tz"] = v.get("tz")
     s["integer"] = v["integer"]
     s["comm"] = v["comm"]
     if not v["same_data"]:
@@ -151,6 +154,11 @@ def make_inputs(vs):
     add = {}
     if vs.get("bidoffer"):
         add["bidoffer"] = R.frame(vs["bidoffer"], vs["dates"])
+    if vs.get("tz"):
+        # exchange-local time stamps: the frames the user hands over carry a time zone (and must still carry it afterwards)
+        data.index = data.index.tz_localize(vs["tz"])
+        for k in add:
+            add[k].index = add[k].index.tz_localize(vs["tz"])
     return data, add
 
 
